@@ -805,6 +805,7 @@ class C10(Property):
         generated = (self.gen_layout(rng, tier) for _ in range(count))
         yield from self._precomputed(generated)
         yield from self.prepeptide_cases(rng, deep)
+        yield from self.qualtext_cases(rng, deep)
         if deep:
             yield from self._precomputed(self.small_scope())
         self.extra_coverage = {"records_generated": count, "worker_processes": WORKERS}
@@ -840,6 +841,190 @@ class C10(Property):
             ld = rng.randrange(0, total)
             tl = rng.randrange(0, total - ld)
             yield {"f": "prepeptide", "loc": compound(parts) if k > 1 else simple(*parts[0]), "ld": ld, "tl": tl, "len": 201}
+
+    # ---- the text inside the class-specific qualifiers (ASV/Model/SerialQual.lean)
+    FORMATS = ["{} ({}) {}: {}", "{} ({}) {}", "{} (E-value: {}, bitscore: {}, seeds: {}, tool: {})",
+               "Domain: {} ({:d}-{:d}). E-value: {}. Score: {}. Matches aSDomain: {}", "type: {}",
+               "{}: {}", "{} {}", "{}({:d})", "{:d}-{:d}", "a {} b", "{}.{}. {}", "{}"]
+    FUNCTIONS = ["other", "biosynthetic", "biosynthetic-additional", "transport", "regulatory", "resistance"]
+
+    def qualtext_cases(self, rng: random.Random, deep: bool) -> Iterator[Dict[str, Any]]:
+        alphabet = "ab(:) ,.-0 1"
+
+        def noise(lo: int, hi: int, chars: str = alphabet) -> str:
+            return "".join(rng.choice(chars) for _ in range(rng.randint(lo, hi)))
+
+        def word() -> str:
+            return rng.choice(["smcogs", "rule-based-clusters", "t", "a.b", "x1", "cluster_definition", "resist"])
+
+        def description() -> str:
+            return rng.choice(["thing", "SMCOG1000: thing", "SMCOG1000:thing (Score: 12.5; E-value: 1e-5)", "a b", "x:", ":x",
+                               "a (b) c", "a: b: c", " lead", "trail ", "(p) q", "4 (x): y", noise(1, 8)])
+
+        def product() -> Optional[str]:
+            # never "": `__str__` treats it as no product while `__eq__` (the de-duplication in add()) does not
+            return rng.choice([None, None, "T1PKS", "NRPS-like", "p q", "a:b", "RiPP (x)"])
+        # hand-picked first
+        for text in ["other (smcogs) SMCOG1000: thing", "other (t) :a", "biosynthetic (t) d", "biosynthetic (t) p: d", "bio (t) d",
+                     "other (a b) d", "other ( t) d", "other (t)d", "other(t) d", "other (t) p:d", "other (t) a)b: c", "other (t) ",
+                     "other (t) d\n", "other (t) p: d\n", "other (t) a\nb", "other (a)b) d", "other (a) (b) d", "", "other", "other () d",
+                     "regulatory (smcogs) SMCOG1057:TetR family transcriptional regulator (Score: 82.6; E-value: 1.6e-25)"]:
+            yield {"f": "qualtext", "kind": "genefn", "text": text}
+        count = 12000 if deep else 1500
+        for i in range(count):
+            kind = ("format", "genefn", "genefns", "secmet")[i % 4]
+            if kind == "format":
+                fmt = rng.choice(self.FORMATS) if rng.random() < 0.8 else noise(1, 3, "ab (.:") + "{}" + noise(0, 3, "ab (.:") + \
+                    rng.choice(["", "{}", "{:d}", "{}" + noise(1, 2, " ):")])
+                if rng.random() < 0.6:
+                    # data rendered from the format with awkward values, then perhaps damaged
+                    data = fmt
+                    while "{:d}" in data:
+                        data = data.replace("{:d}", rng.choice(["0", "12", "345", "x", ""]), 1)
+                    while "{}" in data:
+                        data = data.replace("{}", rng.choice(["a", "ab", "1.5e-05", "a b", "a(b)", "x: y", "PKS_KS(Iterative-KS)", "",
+                                                               noise(1, 4)]), 1)
+                    if rng.random() < 0.3:
+                        at = rng.randrange(len(data) + 1)
+                        data = data[:at] + rng.choice(["", " ", "\n", ":", "(", ")"]) + data[at + rng.choice([0, 1]):]
+                else:
+                    data = noise(0, 14)
+                yield {"f": "qualtext", "kind": "format", "fmt": fmt, "data": data}
+            elif kind == "genefn":
+                if rng.random() < 0.5:
+                    prod = product()
+                    text = f"{rng.choice(self.FUNCTIONS + ['bio', 'Other'])} ({rng.choice([word(), 'a b', 'a)b', ''])}) " + \
+                        (f"{prod}: " if prod is not None and rng.random() < 0.9 else "") + description()
+                    if rng.random() < 0.3:
+                        at = rng.randrange(len(text) + 1)
+                        text = text[:at] + rng.choice(["", " ", "\n", ":", "(", ")"]) + text[at + rng.choice([0, 1]):]
+                else:
+                    text = noise(0, 16)
+                yield {"f": "qualtext", "kind": "genefn", "text": text}
+            elif kind == "genefns":
+                pool = [{"fn": rng.choice(self.FUNCTIONS), "tool": word(), "description": description(), "product": product()}
+                        for _ in range(3)]
+                annots = [dict(rng.choice(pool)) for _ in range(rng.randint(1, 4))]
+                yield {"f": "qualtext", "kind": "genefns", "annots": annots}
+            else:
+                names = ["PKS_KS", "AMP-binding", "a b", "a(b)", "x", "Condensation", "p450"]
+                domains = [{"name": rng.choice(names), "evalue": rng.choice([0.0, 1e-5, 1.5e-20, 3.0, 2.5e-310, 1e22, 0.1]),
+                            "bitscore": rng.choice([0.0, 12.5, -3.25, 100.0, 1e16]), "nseeds": rng.choice([0, 1, 25, 1000]),
+                            "tool": rng.choice(["rule-based-clusters", "t", "a b", "x(y)"])} for _ in range(rng.randint(1, 4))]
+                yield {"f": "qualtext", "kind": "secmet", "domains": domains}
+
+    @staticmethod
+    def observe_qualtext(case: Dict[str, Any]) -> Dict[str, Any]:
+        from antismash.common.secmet.qualifiers.gene_functions import (GeneFunction, GeneFunctionAnnotations,
+                                                                        _GeneFunctionAnnotation)
+        from antismash.common.secmet.qualifiers.secmet import SecMetQualifier, _parse_format
+
+        def annot(a: Any) -> Dict[str, Any]:
+            return {"fn": str(a.function), "tool": a.tool, "description": a.description, "product": a.product}
+
+        def quals(annotations: Any) -> List[List[Any]]:
+            # the two qualifiers CDSFeature.to_biopython writes
+            if not annotations:
+                return []
+            return [["gene_functions", list(map(str, annotations))], ["gene_kind", [str(annotations.get_classification())]]]
+        kind = case["kind"]
+        if kind == "format":
+            try:
+                return {"groups": list(_parse_format(case["fmt"], case["data"]))}
+            except ValueError:
+                return {"groups": None}
+        if kind == "genefn":
+            try:
+                return {"parsed": {"ok": annot(_GeneFunctionAnnotation.from_string(case["text"]))}}
+            except Exception as exc:  # pylint: disable=broad-except
+                return {"parsed": {"err": err_kind(exc)}}
+        if kind == "genefns":
+            out: Dict[str, Any] = {}
+            try:
+                built = GeneFunctionAnnotations()
+                for a in case["annots"]:
+                    built.add(GeneFunction.from_string(a["fn"]), a["tool"], a["description"], a["product"])
+                out["built"] = {"ok": [annot(a) for a in built]}
+                out["quals"] = {"ok": quals(built)}
+            except Exception as exc:  # pylint: disable=broad-except
+                return {"built": {"err": err_kind(exc)}}
+            try:
+                back = GeneFunctionAnnotations()
+                back.add_from_qualifier(list(map(str, built)))
+                out["back"] = {"ok": [annot(a) for a in back]}
+                out["again"] = {"ok": quals(back)}
+            except Exception as exc:  # pylint: disable=broad-except
+                out["back"] = {"err": err_kind(exc)}
+            return out
+        assert kind == "secmet"
+
+        def dom(d: Any) -> Dict[str, str]:
+            return {"name": d.name, "evalue": str(d.evalue), "bitscore": str(d.bitscore), "nseeds": str(d.nseeds), "tool": d.tool}
+        built_sm = SecMetQualifier([SecMetQualifier.Domain(d["name"], d["evalue"], d["bitscore"], d["nseeds"], d["tool"])
+                                    for d in case["domains"]])
+        strs = list(map(str, built_sm))
+        out = {"built": [dom(d) for d in built_sm], "strs": strs}
+        try:
+            out["back"] = {"ok": [dom(d) for d in SecMetQualifier.from_biopython(strs)]}
+        except Exception as exc:  # pylint: disable=broad-except
+            out["back"] = {"err": err_kind(exc)}
+        return out
+
+    def judge_qualtext(self, case: Dict[str, Any], obs: Dict[str, Any], drv: Dict[str, Any]) -> Judgement:
+        kind = case["kind"]
+        tags = ["qualtext:" + kind]
+        if kind == "format":
+            if not drv["modelled"]:
+                return Judgement(True, True, in_scope=False, tags=tuple(tags + ["format-not-modelled"]))
+            corr = drv["groups"] == obs["groups"]
+            tags.append("match" if obs["groups"] is not None else "no-match")
+            return Judgement(corr, True, nontrivial=obs["groups"] is not None, tags=tuple(tags),
+                             detail="" if corr else f"_parse_format: model {drv['groups']} vs implementation {obs['groups']}")
+        if kind == "genefn":
+            corr = drv["parsed"] == obs["parsed"]
+            tags.append("parsed" if "ok" in obs["parsed"] else "refused:" + obs["parsed"]["err"])
+            return Judgement(corr, True, nontrivial="ok" in obs["parsed"], tags=tuple(tags),
+                             detail="" if corr else f"from_string: model {drv['parsed']} vs implementation {obs['parsed']}")
+        if kind == "genefns":
+            if "err" in obs["built"]:
+                corr = "err" in drv["built"]
+                return Judgement(corr, True, in_scope=False, tags=tuple(tags + ["refused:" + obs["built"]["err"]]),
+                                 detail="" if corr else f"model {drv['built']} vs implementation {obs['built']}")
+            problems = [f"{k}: model {drv[k]} vs implementation {obs[k]}" for k in ("built", "quals", "back", "again")
+                        if drv[k] != obs.get(k)]
+            def norm(annots: List[Dict[str, Any]]) -> List[Dict[str, Any]]:
+                # an empty product is "no product" (`if not self.product`)
+                return [dict(a, product=a["product"] or None) for a in annots]
+
+            def blur(a: Dict[str, Any]) -> Tuple[str, str, str]:
+                text = a["description"] if not a["product"] else f"{a['product']}: {a['description']}"
+                return (a["fn"], a["tool"], text.replace(" ", ""))
+            built = norm(obs["built"]["ok"])
+            bad = []
+            if "err" in obs["back"]:
+                bad.append(f"re-reading raised {obs['back']['err']}")
+            else:
+                if norm(obs["back"]["ok"]) != built:
+                    bad.append(f"annotations {built} came back as {obs['back']['ok']}")
+                if obs["again"] != obs["quals"]:
+                    bad.append(f"second write {obs['again']} differs from the first {obs['quals']}")
+            known = None
+            if bad and "ok" in obs["back"]:
+                colon = any(":" in (a["product"] or "") or (not a["product"] and ":" in a["description"]) for a in built)
+                if colon and list(dict.fromkeys(map(blur, built))) == list(dict.fromkeys(map(blur, obs["back"]["ok"]))) and \
+                        json.dumps(obs["again"]).replace(" ", "") == json.dumps(obs["quals"]).replace(" ", ""):
+                    known = KF_FUNCTION
+            if any(":" in a["description"] for a in built):
+                tags.append("colon-in-description")
+            return Judgement(not problems, not bad, in_scope=bool(drv["scope"]), known=known, nontrivial=True, tags=tuple(tags),
+                             detail="; ".join(bad + problems)[:1200])
+        assert kind == "secmet"
+        problems = [f"{k}: model {drv[k]} vs implementation {obs[k]}" for k in ("built", "strs", "back") if drv[k] != obs[k]]
+        bad = []
+        if obs["back"].get("ok") != obs["built"]:
+            bad.append(f"domains {obs['built']} came back as {obs['back']}")
+        return Judgement(not problems, not bad, in_scope=bool(drv["scope"]), nontrivial=True, tags=tuple(tags),
+                         detail="; ".join(bad + problems)[:1200])
 
     def _precomputed(self, cases: Iterator[Dict[str, Any]]) -> Iterator[Dict[str, Any]]:
         """runs the real round trips of a chunk of cases in worker processes (the implementation side is
@@ -891,6 +1076,8 @@ class C10(Property):
     def observe(self, case: Dict[str, Any]) -> Dict[str, Any]:
         if case["f"] == "prepeptide":
             return self.observe_prepeptide(case)
+        if case["f"] == "qualtext":
+            return self.observe_qualtext(case)
         try:
             rec = build_record(case)
         except Exception as exc:  # pylint: disable=broad-except
@@ -945,6 +1132,12 @@ class C10(Property):
     def driver_line(self, case: Dict[str, Any], obs: Dict[str, Any]) -> Optional[Dict[str, Any]]:
         if case["f"] == "prepeptide":
             return dict(case, re=obs.get("re"))
+        if case["f"] == "qualtext":
+            if case["kind"] == "secmet":
+                # numbers travel as the text Python writes for them (`str(float)`, `str(int)`: trusted layer)
+                return dict(case, domains=[dict(d, evalue=str(float(d["evalue"])), bitscore=str(float(d["bitscore"])),
+                                                nseeds=str(int(d["nseeds"]))) for d in case["domains"]])
+            return case
         if "state" not in obs:
             return None
         line = {"f": "record", "rec": for_model(obs["state"]), "re_gb": for_model(obs["re_gb"]),
@@ -1004,6 +1197,9 @@ class C10(Property):
         if case["f"] == "prepeptide":
             assert drv is not None
             return self.judge_prepeptide(case, obs, drv)
+        if case["f"] == "qualtext":
+            assert drv is not None
+            return self.judge_qualtext(case, obs, drv)
         if "skip" in obs:
             return Judgement(True, True, in_scope=False, tags=("skipped:" + obs["skip"],))
         if "err" in obs:
